@@ -39,7 +39,7 @@ pub fn plan(quick: bool) -> Vec<Part> {
 }
 
 pub fn finalize(_tier: &str, rep: &mut Report) {
-    rep.rule = "every read set of the listed families x {stranded, unstranded} x entry points {compress_kmers_with_hash on filter_kmers' own (unpruned) table, compress_kmers on the sorted pruned and unpruned slice, compress_kmers_no_exts on the bare key list, every sub-table of small tables} x reductions {sum, max, order-recording concatenation}; a case is non-trivial if its reference graph has a palindromic k-mer, a self link/hairpin, a branch, a k-mer seen on both strands, a rejected k-mer, a multi-k-mer unitig, a k-mer repeated within a read or several unitigs".into();
+    rep.rule = "every read set of the listed families x {stranded, unstranded} x entry points {compress_kmers_with_hash on filter_kmers' own (unpruned) table, compress_kmers on the sorted pruned and unpruned slice and on the same rows reversed / rotated, compress_kmers_no_exts on the bare key list, every sub-table of small tables} x reductions {sum, max, order-recording concatenation}; a case is non-trivial if its reference graph has a palindromic k-mer, a self link/hairpin, a branch, a k-mer seen on both strands, a rejected k-mer, a multi-k-mer unitig, a k-mer repeated within a read or several unitigs".into();
     rep.exhaustive = rep.exhaustive; // K=4,5,6 parts are exhaustive within their length bound; catalogue parts are a fixed finite list
     rep.assumptions.push("K >= 8 k-mer types are covered by the structure catalogue only (content not exhaustive)".into());
     rep.assumptions.push("reference model = vcommon::refmodel (string level); boomphf, serde trusted".into());
@@ -74,6 +74,19 @@ fn entry_points<K: Kmer + Send + Sync>(o: &mut Outcome, stage: &str, stranded: b
     let (_, gv) = finish_view(compress_kmers(stranded, &spec_max, tab));
     note(o, &format!("{}/slice", stage), check_lossless(&gv, t, true));
     note(o, &format!("{}/slice/max", stage), check_payload(&gv, &|ks: &[S]| ks.iter().map(|x| t.e[x].count() as u32).max().unwrap_or(0), &|d: &u16, e: &u32| *d as u32 == *e));
+    // (2b) the slice entry point must not depend on the order of its rows: reversed and rotated tables
+    for variant in 0..2 {
+        let mut rows: Tab<K, u16> = tab.clone();
+        if variant == 0 {
+            rows.reverse();
+        } else if !rows.is_empty() {
+            let r = rows.len() / 2;
+            rows.rotate_left(r);
+        }
+        let (_, gv) = finish_view(compress_kmers(stranded, &sum_spec(), &rows));
+        note(o, &format!("{}/slice/permuted-rows", stage), check_lossless(&gv, t, true));
+        note(o, &format!("{}/slice/permuted-rows/sum", stage), check_payload(&gv, &sum_expect(t), &|d: &u16, e: &u32| *d as u32 == *e));
+    }
     // (3) order-recording reduction: payload = list of k-mer ids
     let ids: BTreeMap<S, u32> = t.e.keys().enumerate().map(|(i, x)| (x.clone(), i as u32)).collect();
     let tab_ids: Tab<K, Vec<u32>> = tab.iter().map(|(k, (e, _))| (*k, (*e, vec![ids[&kstr(k)]]))).collect();
